@@ -103,6 +103,17 @@ def x_resolved(self, st, r, name):
         try:
             v = self.ix.fold(r[2], r[1])
         except NotConst:
+            if getattr(self, "fold_regex", False) and isinstance(r[2], ast.Call) and not r[2].keywords:
+                # NAME = re.compile(<constants>) at module level
+                fn = self.ix.resolve_expr(r[1], r[2].func)
+                if isinstance(fn, tuple) and fn[0] == "ext" and fn[1] in ("re.compile",):
+                    try:
+                        cargs = [self.ix.fold(a, r[1]) for a in r[2].args]
+                        rv = _abscall.fold_regex_call(self, "re.compile", cargs, {})
+                        if rv is not KeyError:
+                            return rv
+                    except NotConst:
+                        pass
             return Top("global:" + name)
         return self.x_lift(st, v)
     raise U(self)("resolved %r" % (r,))
